@@ -18,6 +18,8 @@ import (
 	"io/fs"
 	"math/big"
 	"os"
+	"path/filepath"
+	"strings"
 	"syscall"
 	"time"
 
@@ -28,6 +30,12 @@ import (
 //vsym:stub os.Lstat = c13Lstat
 //vsym:stub os.ReadDir = c13ReadDir
 //vsym:stub os.DirFS = c13DirFS
+//vsym:stub os.Stat = c13Stat
+//vsym:stub os.Open = c13Open
+//vsym:stub (*os.File).Stat = c13FileStat
+//vsym:stub (*os.File).ReadDir = c13FileReadDir
+//vsym:stub (*os.File).Readdir = c13FileReaddir
+//vsym:stub (*os.File).Close = c13FileClose
 //vsym:stub github.com/notaryproject/notation-core-go/x509.ReadCertificateFile = c13ReadCertificateFile
 //vsym:stub (*crypto/x509.Certificate).CheckSignature = c13CheckSignature
 //vsym:stub (*crypto/x509.Certificate).CheckSignatureFrom = c13CheckSignatureFrom
@@ -66,6 +74,7 @@ type c13World struct {
 	readdirs []string
 	reads    []string
 	kindOf   map[*x509.Certificate]int
+	opened   string
 }
 
 var c13W *c13World
@@ -107,6 +116,49 @@ func c13Lstat(name string) (fs.FileInfo, error) {
 	}
 	return c13Info{"store", w.storeKind}, nil
 }
+
+// c13Stat / c13Open: the link-following ways of reaching the store (a symlinked store looks like its target)
+func c13Stat(name string) (fs.FileInfo, error) {
+	fi, err := c13Lstat(name)
+	if err == nil && fi.Mode()&fs.ModeSymlink != 0 {
+		return c13Info{"target", c13Dir}, nil
+	}
+	return fi, err
+}
+
+var c13Open1 = &os.File{}
+
+func c13Open(name string) (*os.File, error) {
+	if _, err := c13Stat(name); err != nil {
+		return nil, err
+	}
+	c13W.opened = name
+	return c13Open1, nil
+}
+
+func c13FileStat(f *os.File) (fs.FileInfo, error) {
+	w := c13W
+	if w.opened != w.expected {
+		return c13Info{"other", c13Dir}, nil
+	}
+	if w.storeKind == c13Symlink {
+		return c13Info{"target", c13Dir}, nil
+	}
+	return c13Info{"store", w.storeKind}, nil
+}
+
+func c13FileReadDir(f *os.File, n int) ([]fs.DirEntry, error) { return c13ReadDir(c13W.opened) }
+
+func c13FileReaddir(f *os.File, n int) ([]fs.FileInfo, error) {
+	ents, err := c13ReadDir(c13W.opened)
+	var out []fs.FileInfo
+	for _, e := range ents {
+		out = append(out, e.(c13Info))
+	}
+	return out, err
+}
+
+func c13FileClose(f *os.File) error { return nil }
 
 func c13ReadDir(name string) ([]fs.DirEntry, error) {
 	w := c13W
@@ -336,11 +388,23 @@ func c13Materialise(w *c13World, typ, name string, pathUsable bool) string {
 		panic(err)
 	}
 	if !pathUsable {
-		// nothing can (or needs to) exist at a path the store rejects by name; give the code a well-stocked
-		// neighbourhood instead so that a traversal would find something
-		os.MkdirAll(root+"/truststore/x509/ca/other", 0o755)
-		os.WriteFile(root+"/truststore/x509/ca/other/r.crt", c13PEM(c13RootCA, 99), 0o644)
-		os.WriteFile(root+"/truststore/x509/r.crt", c13PEM(c13RootCA, 98), 0o644)
+		// nothing can exist at the literal path of a rejected type/name pair; but the place such a pair
+		// resolves to after cleaning is made a real directory holding a valid root (the worst case), and so is
+		// the neighbourhood
+		for i := 0; i < len(typ+name); i++ {
+			if (typ + name)[i] == 0 {
+				return root
+			}
+		}
+		target := filepath.Join(root, "truststore/x509", typ, name)
+		if strings.HasPrefix(target, root+"/") {
+			if fi, err := os.Stat(target); err != nil || fi.IsDir() {
+				os.MkdirAll(target, 0o755)
+				if ents, _ := os.ReadDir(target); len(ents) == 0 {
+					os.WriteFile(target+"/r.crt", c13PEM(c13RootCA, 98), 0o644)
+				}
+			}
+		}
 		return root
 	}
 	store := root + "/truststore/x509/" + typ + "/" + name
